@@ -181,13 +181,13 @@ package executors
 //@ func NewBulkExecutor
 //@   prop C16
 //@   opaque NewPeriodicalExecutor, newBulkOptions
-//@   loop 1 invariant -1 <= rangeindex
+//@   loop 1 invariant -1 <= rangeindex && rangeindex < len(opts) && (rangeindex == -1 ==> options.cachedTasks == ret(newBulkOptions).cachedTasks && options.flushInterval == ret(newBulkOptions).flushInterval)
 //@   ensures [container-wired] result != nil && result.container != nil && result.container.execute == execute && result.executor == ret(NewPeriodicalExecutor) && unbox(arg(NewPeriodicalExecutor, 1), ptr(bulkContainer)) == result.container
 //@   ensures [configured-threshold-and-interval] result.container.maxTasks == local(options).cachedTasks && arg(NewPeriodicalExecutor, 0) == local(options).flushInterval && (len(opts) == 0 ==> local(options).cachedTasks == ret(newBulkOptions).cachedTasks)
 //@ func NewChunkExecutor
 //@   prop C16
 //@   opaque NewPeriodicalExecutor, newChunkOptions
-//@   loop 1 invariant -1 <= rangeindex
+//@   loop 1 invariant -1 <= rangeindex && rangeindex < len(opts) && (rangeindex == -1 ==> options.chunkSize == ret(newChunkOptions).chunkSize && options.flushInterval == ret(newChunkOptions).flushInterval)
 //@   ensures [container-wired] result != nil && result.container != nil && result.container.execute == execute && result.executor == ret(NewPeriodicalExecutor) && unbox(arg(NewPeriodicalExecutor, 1), ptr(chunkContainer)) == result.container
 //@   ensures [configured-threshold-and-interval] result.container.maxChunkSize == local(options).chunkSize && arg(NewPeriodicalExecutor, 0) == local(options).flushInterval && (len(opts) == 0 ==> local(options).chunkSize == ret(newChunkOptions).chunkSize)
 //@ func WithBulkTasks$1
